@@ -205,6 +205,22 @@ def oracle(ck, tier, deep):
                                                                                                 else f"abel differs from that for the float by {da:.3g} of its maximum"))
         except Exception as e:
             ck.violation(dict(site="SampleImage", clause="exception", name=name), dict(name=name, sigma="0-d array"), f"{type(e).__name__}: {e}")
+    # a tighter tolerance never gives a worse transform: tolerances far below the documented table (hundreds of parabolas per Gaussian)
+    # against a moderate one — both are within their own tolerance of the truth, so they differ by at most the sum
+    for name in ("Dribinski", "Gerber", "Ominus"):
+        ck.count(("S.sample-tight-tol", name), suite="S.sample-images")
+        try:
+            s_ = quiet(analytical.SampleImage, 41, name=name, sigma=3.0)
+            loose = np.array(quiet(s_.transform, 1e-5))
+            for tt in ((1e-7, 3e-8) if not deep else (2e-7, 1e-7, 3e-8, 1e-8)):
+                tight = np.array(quiet(s_.transform, tt))
+                amp_ = float(np.abs(loose).max())
+                d_ = float(np.abs(tight - loose).max())
+                if not d_ <= 1.01 * (1e-5 + tt) * amp_:
+                    ck.violation(dict(site="SampleImage", clause="tighter-tolerance-worse", name=name), dict(name=name, n=41, sigma=3.0, tol=tt, difference=d_),
+                                 f"SampleImage(41, {name!r}, sigma=3).transform({tt:g}) differs from transform(1e-5) by {d_ / amp_:.3g} of the maximum — more than both tolerances together")
+        except Exception as e:
+            ck.violation(dict(site="SampleImage", clause="exception", name=name), dict(name=name, tol="tight"), f"{type(e).__name__}: {e}")
     for name in names:
       for n in sizes:
         for rep_i in range(1 if name in ("Gaussian", "O2") else 3):
